@@ -66,7 +66,7 @@ REPO_MARK = "/lsst/daf/relation/"
 
 
 class Entry:
-    __slots__ = ("rel", "mv", "op", "parents", "alias", "taint", "idx", "events", "evaluated", "all_bag_det", "lid")
+    __slots__ = ("rel", "mv", "op", "parents", "alias", "taint", "idx", "events", "evaluated", "all_bag_det", "lid", "eval_ok")
 
     def __init__(self, rel, mv, op, parents, alias=False):
         self.rel = rel
@@ -77,6 +77,7 @@ class Entry:
         self.taint = set()
         self.events = set()
         self.evaluated = False
+        self.eval_ok = False
         self.lid = None
         self.all_bag_det = bool(mv.bag_det) and all(p.all_bag_det for p in parents)
         for p in parents:
@@ -295,6 +296,8 @@ class Run(ExtraOps):
                     return True
             if self._uses_itonly(op):
                 return True
+            if op["k"] == "custom" and op.get("pe") == "sql":
+                return True         # (like an engine-restricted expression: the preferred engine cannot take it)
             if op["k"] == "join" and "Joins are not supported" in str(e):
                 return False
         return False
@@ -492,6 +495,7 @@ class Run(ExtraOps):
         self.check_hook_calls(ent, w.processor.calls[ncalls:], mat_before)
         self.check_hidden_leaves(ent, starts0, allowed)
         self.logev(w.op_index, "rows", hashlib.sha1(repr(rows).encode()).hexdigest()[:10])
+        ent.eval_ok = True          # this very relation has been evaluated successfully at least once
         ok = self.check_rows(ent, rows)
         self.check_bounds(ent, len(rows))
         if out is not ent.rel:
@@ -816,7 +820,7 @@ class Run(ExtraOps):
         if t is None:
             return
         kind = op["op"]
-        if M.is_sql(t.mv.engine) or op.get("pe") == "sql":
+        if M.is_sql(t.mv.engine) or (op.get("pe") == "sql" and (op.get("tr") or op.get("rq"))):
             return self.alias(op, t, "illtyped")
         if kind == "orderby" and op["col"] not in t.mv.cols:
             return self.alias(op, t, "illtyped")
